@@ -68,7 +68,14 @@ fn record(s: &Value, t0: Instant) -> Record {
         key: RecordKey::from(key(vcommon::n(s, "keylen"))),
         value: vec![0x55; vcommon::n(s, "vlen") as usize],
         publisher: if vcommon::b(s, "haspub") { Some(peer(9)) } else { None },
-        expires: if vcommon::n(s, "ttl") > 0 { Some(t0 + Duration::from_secs(vcommon::n(s, "ttl") as u64)) } else { None },
+        // "ttl_ms": a remaining lifetime below one second (the wire carries whole seconds: must go out as 1, never as 0 = "no expiry")
+        expires: if let Some(ms) = s.get("ttl_ms").and_then(|x| x.as_u64()) {
+            Some(t0 + Duration::from_millis(ms))
+        } else if vcommon::n(s, "ttl") > 0 {
+            Some(t0 + Duration::from_secs(vcommon::n(s, "ttl") as u64))
+        } else {
+            None
+        },
     }
 }
 fn peers(n: i64, base: u64, naddr: i64, c: i64) -> Vec<KadPeer> {
@@ -354,6 +361,12 @@ pub fn main(a: &vcommon::Args) {
             let mut out = Out::create(a.get(2));
             for s in &shapes {
                 out.ev(roundtrip(s));
+            }
+            // records with less than a second left, in both record-carrying message kinds
+            for ms in [900u64, 600, 300] {
+                for (dir, kind) in [("req", "PutValue"), ("resp", "GetValue")] {
+                    out.ev(roundtrip(&json!({"dir": dir, "kind": kind, "keylen": 3, "naddr": 1, "ct": 1, "ncloser": 1, "nprov": 0, "hasrec": true, "haspub": true, "ttl": 1, "ttl_ms": ms, "vlen": 2})));
+                }
             }
             println!("records={}", out.events);
             out.finish();
